@@ -407,6 +407,8 @@ func VerifC19Odd() {
 		"enode://" + other + "@" + sup + ":30303",
 		"http://" + nodeID + "@" + sup + ":30303",
 		"enode://" + nodeID + ":secret@" + sup + ":30303",
+		nodeID,                 // just the id (a form the agent's --enode option accepts): no address supplied
+		nodeID + "?discport=0", // the same with a query
 	}
 	k := verifapi.Choose("override", len(overrides))
 	got, err := normalizeNodeURI(overrides[k], nodeID, src, "30303")
@@ -416,7 +418,7 @@ func VerifC19Odd() {
 	}
 	verifapi.Observe("advertised", got)
 	okDefault := src != "" && got == "enode://"+nodeID+"@"+src+":30303"
-	okSupplied := got == "enode://"+nodeID+"@"+sup+":30303"
+	okSupplied := got == "enode://"+nodeID+"@"+sup+":30303" && k < 13
 	verifapi.Assert(okDefault || okSupplied, "c19.odd.advertised-is-exactly-id-at-supplied-or-connection-address")
 	if k == 10 || k == 3 || k == 0 {
 		// the override names another node: never advertised at the address it supplied
